@@ -11,6 +11,9 @@ use core::task::{Poll, Context, Waker};
 use core::time::Duration;
 use core::num::NonZeroUsize;
 use std::thread::Thread;
+// module aliases a maintainer may import instead of spelling full paths
+use std::thread;
+use core::{mem, ptr, hint};
 verus! {
 global size_of usize == 8;
 
@@ -177,19 +180,40 @@ pub assume_specification [<std::thread::Thread as core::clone::Clone>::clone] (_
 pub uninterp spec fn woken(w: core::task::Waker) -> bool;
 pub uninterp spec fn unparked(t: std::thread::Thread) -> bool;
 pub assume_specification [std::thread::Thread::unpark] (_0: &std::thread::Thread) ensures unparked(*_0);
+pub assume_specification<T> [core::mem::drop] (_0: T);
 pub assume_specification [core::task::Waker::wake] (_0: core::task::Waker) ensures woken(_0);
+pub assume_specification [core::task::Waker::wake_by_ref] (_0: &core::task::Waker) ensures woken(*_0);
 /// T10: std::thread::current / park (trusted: return, touch nothing the contracts speak about)
 pub assume_specification [std::thread::current] () -> std::thread::Thread;
 pub assume_specification [std::thread::park] ();
 impl<T> KanalPtr<T> {
     /// the payload behind / inside this pointer has been written (send) or taken (recv) by the peer
     pub uninterp spec fn moved(&self) -> bool;
+    /// this thread has written the value `d` through the pointer / copied the object behind `d` through it
+    pub uninterp spec fn wrote(&self, d: T) -> bool;
+    pub uninterp spec fn copied(&self, d: *const T) -> bool;
+    /// the value a read through the pointer yields (K1.roundtrip: the value written / lent)
+    pub uninterp spec fn content(&self) -> T;
     #[verifier::external_body]
-    pub unsafe fn write(&self, d: T) ensures self.moved() { unimplemented!() }
+    pub unsafe fn write(&self, d: T) ensures self.moved(), self.wrote(d) { unimplemented!() }
     #[verifier::external_body]
-    pub unsafe fn read(&self) -> (r: T) ensures self.moved() { unimplemented!() }
+    pub unsafe fn read(&self) -> (r: T) ensures self.moved(), r == self.content() { unimplemented!() }
     #[verifier::external_body]
-    pub unsafe fn copy(&self, d: *const T) ensures self.moved() { unimplemented!() }
+    pub unsafe fn copy(&self, d: *const T) ensures self.moved(), self.copied(d) { unimplemented!() }
+}
+/// X11 stand-in for the `*const Signal<T>` a SignalTerminator carries: `as_ref` is the dereference the real code performs
+/// inside `Signal::send/recv/terminate` (`(*this)`); that the pointee is alive is R3 (assumed, lifetime/pinning)
+#[verifier::external_body] #[verifier::accept_recursive_types(T)]
+pub struct SigPtr<T> { p: core::marker::PhantomData<T> }
+impl<T> Clone for SigPtr<T> {
+    #[verifier::external_body]
+    fn clone(&self) -> (r: Self) ensures r == *self { unimplemented!() }
+}
+impl<T> Copy for SigPtr<T> {}
+impl<T> SigPtr<T> {
+    pub uninterp spec fn target(self) -> Signal<T>;
+    #[verifier::external_body]
+    pub fn as_ref<'a>(self) -> (r: &'a Signal<T>) ensures *r == self.target() { unimplemented!() }
 }
 impl<X> From<X> for UnsafeCell<X> {
     #[verifier::external_body]
